@@ -34,7 +34,8 @@ EXPLANATION = ("body VCs of _match (digest screen), overhang_start/end, target_s
 
 
 def obligations(ctx):
-    return ctx.verify(FUNCTIONS) + literal(ctx) + lemmas(ctx)
+    from props._shared import typing_state_census
+    return list(ctx.verify(FUNCTIONS) + literal(ctx) + lemmas(ctx)) + [typing_state_census(ctx, 'C04')]
 
 
 # ---------------------------------------------------------------------------------------------- C: literals
